@@ -546,7 +546,12 @@ func (c *Check) lexemeJobs(entry, ver string, every int, fuel int64) ([]JobNeed,
 				continue
 			}
 			cands = append(cands, lcand{s, first, last, cf, cl, esc})
-			keys = append(keys, fmt.Sprintf("%d/%d", pv, t.ID))
+			key := fmt.Sprintf("%d/%d", pv, t.ID)
+			if esc >= 0 {
+				// single- and double-quoted strings are different scanner machines
+				key += "/" + s.Src[t.Start:t.Start+1]
+			}
+			keys = append(keys, key)
 		}
 	}
 	use := pickDiverse(keys, every)
